@@ -77,9 +77,9 @@ func (g *Gen) globalVal(gl *ssa.Global) Val {
 	if g.E.immutableGlobal(gl) {
 		name = "GI." + sanitize(gl.Pkg.Pkg.Name()+"."+gl.Name())
 	}
-	_, known := g.heapSort[name]
 	g.heapDecl(name, g.sortOf(elem))
-	if !known && strings.HasPrefix(name, "GI.") {
+	if !g.declared["gifacts:"+name] && strings.HasPrefix(name, "GI.") {
+		g.declared["gifacts:"+name] = true
 		g.globalInitFacts(gl, name)
 	}
 	return Val{T: gl.Type(), S: "1", Addr: &Addr{Kind: "global", Heap: name, ElemT: elem}}
